@@ -359,8 +359,10 @@ class Ctx:
         path = os.path.join(VERIF, 'replays', f'{self.prop_id}-{h}.json')
         with open(path, 'w') as f:
             json.dump(body, f, indent=1, default=str)
-        if len(self.violations) < 20:
+        # at most 20 lines of each kind; violations with a failing input are listed first
+        if sum(1 for _p, fi, _w in self.violations if fi == found_input) < 20:
             self.violations.append((path, found_input, what))
+            self.violations.sort(key=lambda v: not v[1])
         return True
 
     # ---- standard steps -------------------------------------------------------------------
